@@ -9,12 +9,17 @@ function methods, when/otherwise, cast, alias), driven by the regenerated table 
   denote   the intended value of a PyExpr under SQL three-valued logic (the specification)
   evalSql  the value of a SqlExpr *as grouped by the tree* (Paren and Alias are transparent)
 
+Plain Python values (`col + 1.5`, `2.5e-07 * col`, `col.isin(…)`, `when(c, 'a')`, `lit(…)`) enter the tree
+through the literal conversion of Impl/C05Lit.lean (`Column._lit` / `Column(v)` / `functions.lit`, each site
+with the coercion regenerated in `Gen.ColumnLit`); the specification takes them at face value (`pyValue`),
+the SQL evaluation reads the literal node's *text* back the way the engine's lexer does (`LitNode.value`).
+
 Scalar operator meanings (`arithSem`, `cmpVal`, `likeSem`, …) are shared by `denote` and `evalSql`:
 the theorems are about operand order, grouping and negation scope; the scalar meanings themselves are
 the assumed engine semantics, validated against DuckDB by the correspondence stream.
 -/
 import SqlframeModel.Core.Value
-import SqlframeModel.Core.Expr
+import SqlframeModel.Impl.C05Lit
 import SqlframeModel.Gen.ColumnOps
 namespace Sqlframe.C05
 open Sqlframe
@@ -29,28 +34,40 @@ inductive Logic | and | or
   deriving DecidableEq, Repr
 inductive StrFn | startswith | endswith | rlike
   deriving DecidableEq, Repr
-inductive Ty | string | bigint
+inductive Ty | string | bigint | double
   deriving DecidableEq, Repr
 
-/-- What the user wrote.  `arithL/cmpL/logicL op v b` is `v op b` with a plain Python value on the
+/-- where a plain Python value is handed to a method (decides which coercion of `Gen.ColumnLit` applies) -/
+inductive Site
+  | binary                -- right operand of an operator / `eqNullSafe`
+  | between               -- a bound of `between`
+  | strFn (f : StrFn)     -- argument of `startswith` / `endswith` / `rlike`
+  | substr                -- `startPos` / `length`
+  | when                  -- value of `when(c, v)` / `.when(c, v)`
+  | otherwise             -- value of `.otherwise(v)`
+  deriving DecidableEq, Repr
+
+/-- What the user wrote.  `lit v` is `F.lit(v)`; `raw s v` is the plain Python value `v` written at the
+    operand position `s` of its parent.  `arithL/cmpL/logicL op v b` is `v op b` with a plain Python value on the
     left (Python then calls the reflected method of `b`; for comparisons the mirrored one).
     A `when` chain `when(c₁,v₁).when(c₂,v₂).otherwise(d)` is `when c₁ v₁ (when c₂ v₂ (otherwise d))`;
     a chain without `otherwise` ends in `noElse`. -/
 inductive PyExpr
   | col (n : Name)
-  | lit (v : Val)
+  | lit (v : PyVal)
+  | raw (s : Site) (v : PyVal)
   | arith (op : Arith) (a b : PyExpr)
-  | arithL (op : Arith) (v : Val) (b : PyExpr)
+  | arithL (op : Arith) (v : PyVal) (b : PyExpr)
   | cmp (op : Cmp) (a b : PyExpr)
-  | cmpL (op : Cmp) (v : Val) (b : PyExpr)
+  | cmpL (op : Cmp) (v : PyVal) (b : PyExpr)
   | logic (op : Logic) (a b : PyExpr)
-  | logicL (op : Logic) (v : Val) (b : PyExpr)
+  | logicL (op : Logic) (v : PyVal) (b : PyExpr)
   | neg (a : PyExpr)
   | not (a : PyExpr)
   | isNull (a : PyExpr)
   | isNotNull (a : PyExpr)
   | eqNullSafe (a b : PyExpr)
-  | isin (a : PyExpr) (vs : List Val)
+  | isin (a : PyExpr) (vs : List PyVal)
   | between (a lo hi : PyExpr)
   | like (a : PyExpr) (pat : String)
   | strFn (f : StrFn) (a b : PyExpr)
@@ -62,49 +79,69 @@ inductive PyExpr
   | alias (a : PyExpr) (n : Name)
   deriving DecidableEq, Repr
 
-abbrev Env := Name → Val
+abbrev Env := Name → CVal
 
 /-! ## scalar meanings (shared by specification and SQL evaluation) -/
 
-def arithSem : Arith → Val → Val → Val
+/-- `+ - *` on BIGINT; on DOUBLE when either side is one (the other is cast); `%` on BIGINT only -/
+def arithSem : Arith → CVal → CVal → CVal
   | .add, .int a, .int b => .int (a + b)
   | .sub, .int a, .int b => .int (a - b)
   | .mul, .int a, .int b => .int (a * b)
   | .mod, .int a, .int b => if b = 0 then .null else .int (Int.tmod a b)
-  | _, _, _ => .null
+  | .mod, _, _ => .null
+  | op, x, y =>
+    match numOf x, numOf y with
+    | some a, some b =>
+      (match op with
+        | .add => .dbl (a.add b)
+        | .sub => .dbl (a.sub b)
+        | .mul => .dbl (a.mul b)
+        | .mod => .null)
+    | _, _ => .null
 
-def cmpVal : Cmp → Val → Val → Val
-  | .eq => cmpSem (fun x y => decide (x = y)) (fun x y => decide (x = y)) (fun x y => decide (x = y))
-  | .ne => cmpSem (fun x y => decide (x ≠ y)) (fun x y => decide (x ≠ y)) (fun x y => decide (x ≠ y))
-  | .lt => cmpSem (fun x y => decide (x < y)) (fun x y => decide (x < y)) (fun x y => !x && y)
-  | .le => cmpSem (fun x y => decide (x ≤ y)) (fun x y => decide (x ≤ y)) (fun x y => !x || y)
-  | .gt => cmpSem (fun x y => decide (y < x)) (fun x y => decide (y < x)) (fun x y => !y && x)
-  | .ge => cmpSem (fun x y => decide (y ≤ x)) (fun x y => decide (y ≤ x)) (fun x y => !y || x)
+/-- comparisons from the one strict order `ltVal` (NULL or ill-typed operands give NULL) -/
+def cmpVal (op : Cmp) (a b : CVal) : CVal :=
+  match ltVal a b, ltVal b a with
+  | some l, some g =>
+    .bool (match op with
+      | .eq => !l && !g
+      | .ne => l || g
+      | .lt => l
+      | .le => !g
+      | .gt => g
+      | .ge => !l)
+  | _, _ => .null
 
 /-- `v < b` written with a Python value on the left is evaluated by Python as `b > v` -/
 def Cmp.swap : Cmp → Cmp
   | .eq => .eq | .ne => .ne | .lt => .gt | .le => .ge | .gt => .lt | .ge => .le
 
-def logicSem : Logic → Val → Val → Val
-  | .and => and3
-  | .or => or3
+def logicSem : Logic → CVal → CVal → CVal
+  | .and => kand
+  | .or => kor
 
-def negSem : Val → Val
+def negSem : CVal → CVal
   | .int i => .int (-i)
+  | .dbl d => .dbl d.neg
   | _ => .null
 
-def isNullSem (v : Val) : Val := .bool (decide (v = .null))
+def isNullSem (v : CVal) : CVal := .bool (decide (v = .null))
 
-def nullSafeEq (a b : Val) : Val := .bool (decide (a = b))
+/-- `<=>`: NULL-safe equality (numbers compare numerically) -/
+def nullSafeEq (a b : CVal) : CVal :=
+  if a = .null then .bool (decide (b = .null))
+  else if b = .null then .bool false
+  else .bool (decide (cmpVal .eq a b = .bool true))
 
 /-- `v IN (vs)`: TRUE on a match, else NULL when `v` or a list element is NULL, else FALSE -/
-def inSem (v : Val) (vs : List Val) : Val :=
+def inSem (v : CVal) (vs : List CVal) : CVal :=
   if v = .null then .null
-  else if vs.contains v then .bool true
+  else if vs.any (fun x => decide (cmpVal .eq v x = .bool true)) then .bool true
   else if vs.contains .null then .null
   else .bool false
 
-def betweenSem (a lo hi : Val) : Val := and3 (cmpVal .ge a lo) (cmpVal .le a hi)
+def betweenSem (a lo hi : CVal) : CVal := kand (cmpVal .ge a lo) (cmpVal .le a hi)
 
 /-- `f` holds for some suffix of the list (including the empty one) -/
 def anySuffix (f : List Char → Bool) : List Char → Bool
@@ -120,51 +157,55 @@ def likeMatch : List Char → List Char → Bool
       | [] => false
       | c :: cs => (p = '_' || p = c) && likeMatch ps cs
 
-def likeSem : Val → Val → Val
+def likeSem : CVal → CVal → CVal
   | .str s, .str p => .bool (likeMatch p.toList s.toList)
   | _, _ => .null
 
-def strFnSem : StrFn → Val → Val → Val
+def strFnSem : StrFn → CVal → CVal → CVal
   | .startswith, .str s, .str p => .bool (p.toList.isPrefixOf s.toList)
   | .endswith, .str s, .str p => .bool (p.toList.isSuffixOf s.toList)
   | .rlike, .str s, .str p => .bool (anySuffix (fun suf => p.toList.isPrefixOf suf) s.toList)  -- metacharacter-free pattern
   | _, _, _ => .null
 
 /-- `SUBSTRING(s, start, len)` for `start ≥ 1`, `len ≥ 0` (1-based) -/
-def substrSem : Val → Val → Val → Val
+def substrSem : CVal → CVal → CVal → CVal
   | .str s, .int st, .int len => .str (String.ofList ((s.toList.drop (st - 1).toNat).take len.toNat))
   | _, _, _ => .null
 
-def castSem : Ty → Val → Val
+/-- CAST between the modelled types (DOUBLE → TEXT / BIGINT is engine-specific formatting / rounding: outside the alphabet) -/
+def castSem : Ty → CVal → CVal
   | .string, .int i => .str (toString i)
   | .string, .str s => .str s
   | .string, .bool b => .str (if b then "true" else "false")
   | .bigint, .int i => .int i
   | .bigint, .bool b => .int (if b then 1 else 0)
+  | .double, .int i => .dbl (Dbl.mk i 0)
+  | .double, .dbl d => .dbl d
   | _, _ => .null
 
 /-! ## the specification -/
 
-def denote (env : Env) : PyExpr → Val
+def denote (env : Env) : PyExpr → CVal
   | .col n => env n
-  | .lit v => v
+  | .lit v => pyValue v
+  | .raw _ v => pyValue v
   | .arith op a b => arithSem op (denote env a) (denote env b)
-  | .arithL op v b => arithSem op v (denote env b)
+  | .arithL op v b => arithSem op (pyValue v) (denote env b)
   | .cmp op a b => cmpVal op (denote env a) (denote env b)
-  | .cmpL op v b => cmpVal op v (denote env b)
+  | .cmpL op v b => cmpVal op (pyValue v) (denote env b)
   | .logic op a b => logicSem op (denote env a) (denote env b)
-  | .logicL op v b => logicSem op v (denote env b)
+  | .logicL op v b => logicSem op (pyValue v) (denote env b)
   | .neg a => negSem (denote env a)
-  | .not a => not3 (denote env a)
+  | .not a => knot (denote env a)
   | .isNull a => isNullSem (denote env a)
-  | .isNotNull a => not3 (isNullSem (denote env a))
+  | .isNotNull a => knot (isNullSem (denote env a))
   | .eqNullSafe a b => nullSafeEq (denote env a) (denote env b)
-  | .isin a vs => inSem (denote env a) vs
+  | .isin a vs => inSem (denote env a) (vs.map pyValue)
   | .between a lo hi => betweenSem (denote env a) (denote env lo) (denote env hi)
   | .like a p => likeSem (denote env a) (.str p)
   | .strFn f a b => strFnSem f (denote env a) (denote env b)
   | .substr a s l => substrSem (denote env a) (denote env s) (denote env l)
-  | .when c v rest => if isTrue (denote env c) then denote env v else denote env rest
+  | .when c v rest => if isTrueC (denote env c) then denote env v else denote env rest
   | .noElse => .null
   | .otherwise d => denote env d
   | .cast a ty => castSem ty (denote env a)
@@ -177,12 +218,12 @@ def denote (env : Env) : PyExpr → Val
     `caseWhen c₁ v₁ (caseWhen c₂ v₂ (caseElse d | caseEnd))`. -/
 inductive SqlExpr
   | col (n : Name)
-  | lit (v : Val)
+  | lit (l : LitNode)
   | paren (a : SqlExpr)
   | bin (k : String) (a b : SqlExpr)
   | un (k : String) (a : SqlExpr)
   | isNull (a : SqlExpr)
-  | inList (a : SqlExpr) (vs : List Val)
+  | inList (a : SqlExpr) (vs : List LitNode)
   | between (a lo hi : SqlExpr)
   | fn2 (f : String) (a b : SqlExpr)
   | fn3 (f : String) (a b c : SqlExpr)
@@ -193,7 +234,7 @@ inductive SqlExpr
   | alias (a : SqlExpr) (n : Name)
   deriving DecidableEq, Repr
 
-def binSemOf : String → Val → Val → Val
+def binSemOf : String → CVal → CVal → CVal
   | "Add" => arithSem .add
   | "Sub" => arithSem .sub
   | "Mul" => arithSem .mul
@@ -204,46 +245,47 @@ def binSemOf : String → Val → Val → Val
   | "LTE" => cmpVal .le
   | "GT" => cmpVal .gt
   | "GTE" => cmpVal .ge
-  | "And" => and3
-  | "Or" => or3
+  | "And" => kand
+  | "Or" => kor
   | "NullSafeEQ" => nullSafeEq
   | "Like" => likeSem
   | _ => fun _ _ => .null
 
-def unSemOf : String → Val → Val
-  | "Not" => not3
+def unSemOf : String → CVal → CVal
+  | "Not" => knot
   | "Neg" => negSem
   | _ => fun _ => .null
 
-def fn2SemOf : String → Val → Val → Val
+def fn2SemOf : String → CVal → CVal → CVal
   | "StartsWith" => strFnSem .startswith
   | "Anonymous:ENDSWITH" => strFnSem .endswith
   | "Session:endswith" => strFnSem .endswith
   | "RegexpLike" => strFnSem .rlike
   | _ => fun _ _ => .null
 
-def fn3SemOf : String → Val → Val → Val → Val
+def fn3SemOf : String → CVal → CVal → CVal → CVal
   | "Substring" => substrSem
   | _ => fun _ _ _ => .null
 
-def castSemOf : String → Val → Val
+def castSemOf : String → CVal → CVal
   | "TEXT" => castSem .string
   | "BIGINT" => castSem .bigint
+  | "DOUBLE" => castSem .double
   | _ => fun _ => .null
 
 /-- value of the tree with the grouping the tree itself has -/
-def evalSql (env : Env) : SqlExpr → Val
+def evalSql (env : Env) : SqlExpr → CVal
   | .col n => env n
-  | .lit v => v
+  | .lit l => l.value
   | .paren a => evalSql env a
   | .bin k a b => binSemOf k (evalSql env a) (evalSql env b)
   | .un k a => unSemOf k (evalSql env a)
   | .isNull a => isNullSem (evalSql env a)
-  | .inList a vs => inSem (evalSql env a) vs
+  | .inList a ls => inSem (evalSql env a) (ls.map LitNode.value)
   | .between a lo hi => betweenSem (evalSql env a) (evalSql env lo) (evalSql env hi)
   | .fn2 f a b => fn2SemOf f (evalSql env a) (evalSql env b)
   | .fn3 f a b c => fn3SemOf f (evalSql env a) (evalSql env b) (evalSql env c)
-  | .caseWhen c v rest => if isTrue (evalSql env c) then evalSql env v else evalSql env rest
+  | .caseWhen c v rest => if isTrueC (evalSql env c) then evalSql env v else evalSql env rest
   | .caseEnd => .null
   | .caseElse d => evalSql env d
   | .cast a ty => castSemOf ty (evalSql env a)
@@ -275,6 +317,16 @@ structure Cfg where
   substr : Gen.DirectOp
   betweenBoundsUnalias : Bool
   betweenBoundsWrap : Bool
+  lit : LitCfg
+  coBinary : Gen.Coerce
+  coInverse : Gen.Coerce
+  coIsin : Gen.Coerce
+  coLike : Gen.Coerce
+  coBetween : Gen.Coerce
+  coSubstr : Gen.Coerce
+  coStrFn : StrFn → Gen.Coerce
+  coWhen : Gen.Coerce
+  coOtherwise : Gen.Coerce
 
 def theCfg : Cfg where
   arith := fun | .add => Gen.op___add__ | .sub => Gen.op___sub__ | .mul => Gen.op___mul__ | .mod => Gen.op___mod__
@@ -300,6 +352,16 @@ def theCfg : Cfg where
   substr := Gen.m_substr
   betweenBoundsUnalias := Gen.betweenBoundsUnalias
   betweenBoundsWrap := Gen.betweenBoundsWrap
+  lit := theLitCfg
+  coBinary := Gen.coerce_binary_op
+  coInverse := Gen.coerce_inverse_binary_op
+  coIsin := Gen.coerce_isin
+  coLike := Gen.coerce_like
+  coBetween := Gen.coerce_between
+  coSubstr := Gen.coerce_substr
+  coStrFn := fun | .startswith => Gen.coerce_startswith | .endswith => Gen.coerce_endswith | .rlike => Gen.coerce_rlike
+  coWhen := Gen.coerce_when
+  coOtherwise := Gen.coerce_otherwise
 
 /-- `Expression.unalias()` -/
 def unaliasS : SqlExpr → SqlExpr
@@ -361,29 +423,50 @@ def mkCast (t : SqlExpr) (ty : String) : SqlExpr :=
 def Ty.sqlName : Ty → String
   | .string => "TEXT"
   | .bigint => "BIGINT"
+  | .double => "DOUBLE"
 
 /-- stands for the display alias `when__<first identifier>__` the `@meta` decorator attaches (its spelling is C10's business) -/
 def autoAlias : Name := "<auto>"
 
+/-- the coercion of each operand position -/
+def Cfg.coerce (cfg : Cfg) : Site → Gen.Coerce
+  | .binary => cfg.coBinary
+  | .between => cfg.coBetween
+  | .strFn f => cfg.coStrFn f
+  | .substr => cfg.coSubstr
+  | .when => cfg.coWhen
+  | .otherwise => cfg.coOtherwise
+
+/-- `F.lit(v)`: the literal, under the decorator's automatic alias when the node is a function (a CAST) -/
+def fnExpr (c : LitCfg) (v : PyVal) : SqlExpr :=
+  if fnAliased c v then .alias (.lit (fnNode c v)) autoAlias else .lit (fnNode c v)
+
+/-- a plain Python value at a call site with coercion `k`, as the `Column` the method makes of it -/
+def litExpr (c : LitCfg) (k : Gen.Coerce) (v : PyVal) : SqlExpr :=
+  match k with
+  | .litFn => fnExpr c v
+  | k => .lit (coerceNode c k v)
+
 /-- the sqlglot tree the real `Column` holds for the user's expression -/
 def build (cfg : Cfg) : PyExpr → SqlExpr
   | .col n => .col n
-  | .lit v => .lit v
+  | .lit v => fnExpr cfg.lit v
+  | .raw s v => litExpr cfg.lit (cfg.coerce s) v
   | .arith op a b => applyBin cfg (cfg.arith op) (unaliasS (build cfg a)) (unaliasS (build cfg b))
-  | .arithL op v b => applyBin cfg (cfg.rarith op) (unaliasS (build cfg b)) (.lit v)
+  | .arithL op v b => applyBin cfg (cfg.rarith op) (unaliasS (build cfg b)) (.lit (coerceNode cfg.lit cfg.coInverse v))
   | .cmp op a b => applyBin cfg (cfg.cmp op) (unaliasS (build cfg a)) (unaliasS (build cfg b))
-  | .cmpL op v b => applyBin cfg (cfg.cmp op.swap) (unaliasS (build cfg b)) (.lit v)
+  | .cmpL op v b => applyBin cfg (cfg.cmp op.swap) (unaliasS (build cfg b)) (.lit (coerceNode cfg.lit cfg.coBinary v))
   | .logic op a b => applyBin cfg (cfg.logic op) (unaliasS (build cfg a)) (unaliasS (build cfg b))
-  | .logicL op v b => applyBin cfg (cfg.rlogic op) (unaliasS (build cfg b)) (.lit v)
+  | .logicL op v b => applyBin cfg (cfg.rlogic op) (unaliasS (build cfg b)) (.lit (coerceNode cfg.lit cfg.coInverse v))
   | .neg a => applyUn cfg cfg.neg (unaliasS (build cfg a))
   | .not a => applyUn cfg cfg.inv (unaliasS (build cfg a))
   | .isNull a => .isNull (subject cfg cfg.isNull "Is" (unaliasS (build cfg a)))
   | .isNotNull a => .un "Not" (.isNull (subject cfg cfg.isNotNull "Is" (unaliasS (build cfg a))))
   | .eqNullSafe a b => applyBin cfg cfg.eqNullSafe (unaliasS (build cfg a)) (unaliasS (build cfg b))
-  | .isin a vs => .inList (subject cfg cfg.isin "In" (unaliasS (build cfg a))) vs
+  | .isin a vs => .inList (subject cfg cfg.isin "In" (unaliasS (build cfg a))) (vs.map (coerceNode cfg.lit cfg.coIsin))
   | .between a lo hi =>
       .between (subject cfg cfg.between "Between" (unaliasS (build cfg a))) (bound cfg (build cfg lo)) (bound cfg (build cfg hi))
-  | .like a p => .bin cfg.like.klass (subject cfg cfg.like cfg.like.klass (unaliasS (build cfg a))) (.lit (.str p))
+  | .like a p => .bin cfg.like.klass (subject cfg cfg.like cfg.like.klass (unaliasS (build cfg a))) (.lit (coerceNode cfg.lit cfg.coLike (.str p)))
   | .strFn f a b => .fn2 (cfg.strFn f).klass (unaliasS (build cfg a)) (unaliasS (build cfg b))
   | .substr a s l => .fn3 cfg.substr.klass (unaliasS (build cfg a)) (unaliasS (build cfg s)) (unaliasS (build cfg l))
   | .when c v rest =>
